@@ -121,6 +121,7 @@ func runC11(c *Config, r *Report) {
 	c11R11(ic, r)
 	c11R12(ic, r)
 	c11R13(ic, r)
+	c11R14(ic, r)
 }
 
 // r114Exceptions: callers of a compile pass outside the pipeline that are accepted, one per line with the reason.
@@ -1234,5 +1235,90 @@ func c11R13(ic *IC, r *Report) {
 		})
 		r.Check(len(bad) == 0, "R11.13", funcName(fi.Decl)+"/program-compiled-by-this-call", ic.pos(fi.Decl.Pos()), "every returned program is created by the call",
 			funcName(fi.Decl)+" can return a program that an earlier call compiled ("+strings.Join(dedupStr(bad), "; ")+"): the compiled form binds the functions, types and variables that existed then, so a statement evaluated again after a redefinition keeps calling the old function, and a statement that failed once for an undefined name can never succeed")
+	}
+}
+
+func init() {
+	ruleText["R11.14"] = "a variable defined at package level is a global whatever statement defines it: in every helper of the compile pass (a plain function taking the scope) that enters a variable symbol in the scope (sc.sym[id] = &symbol{kind: varSym ...}), the literal carries the global flag of the scope - a function reads a non-global package-level symbol by walking up its callers' frames"
+}
+
+// c11R14: found through the round-6 report on C11 (item 6). a, b := two() fed at top level
+// created symbols without the global flag: func g() int { return a + b } read them level frames
+// up the *dynamic* chain, i.e. in its caller's frame (println(g(), k()) printed 3 100).
+func c11R14(ic *IC, r *Report) {
+	info := ic.Info
+	symT, _ := ic.Pk.Types.Scope().Lookup("symbol").(*types.TypeName)
+	if symT == nil {
+		r.Errorf("R11.14: type symbol not found")
+		return
+	}
+	n := 0
+	for _, name := range sortedKeys(ic.F) {
+		fi := ic.F[name]
+		if fi.Decl.Body == nil || fi.Decl.Recv != nil || fi.Obj == nil {
+			continue
+		}
+		sg := fi.Obj.Type().(*types.Signature)
+		takesScope := false
+		for i := 0; i < sg.Params().Len(); i++ {
+			if isNamedPtr(sg.Params().At(i).Type(), "scope") {
+				takesScope = true
+			}
+		}
+		if !takesScope {
+			continue
+		}
+		k := 0
+		ast.Inspect(fi.Decl.Body, func(q ast.Node) bool {
+			as, ok := q.(*ast.AssignStmt)
+			if !ok || len(as.Lhs) != 1 || len(as.Rhs) != 1 {
+				return true
+			}
+			ix, ok := unparen(as.Lhs[0]).(*ast.IndexExpr)
+			if !ok {
+				return true
+			}
+			if v := selField(info, ix.X); v == nil || v.Name() != "sym" {
+				return true
+			}
+			ue, ok := unparen(as.Rhs[0]).(*ast.UnaryExpr)
+			if !ok {
+				return true
+			}
+			cl, ok := unparen(ue.X).(*ast.CompositeLit)
+			if !ok || !types.Identical(info.TypeOf(cl), symT.Type()) {
+				return true
+			}
+			isVar, hasGlobal := false, false
+			for _, e := range cl.Elts {
+				kv, ok := e.(*ast.KeyValueExpr)
+				if !ok {
+					continue
+				}
+				key := identOf(kv.Key)
+				if key == nil {
+					continue
+				}
+				if key.Name == "kind" {
+					if id := identOf(kv.Value); id != nil && id.Name == "varSym" {
+						isVar = true
+					}
+				}
+				if key.Name == "global" {
+					hasGlobal = true
+				}
+			}
+			if !isVar {
+				return true
+			}
+			k++
+			n++
+			r.Check(hasGlobal, "R11.14", fmt.Sprintf("%s/variable-symbol#%d/carries-the-global-flag", name, k), ic.pos(as.Pos()), "the literal sets the global flag",
+				name+" enters a variable symbol in the scope without the global flag ("+types.ExprString(as.Rhs[0])+"): when the statement is at package level - a, b := two() fed to Eval - the variables are read by functions through the dynamic chain of frames, so g() called from another function reads its caller's locals (println(g(), k()) prints 3 100)")
+			return true
+		})
+	}
+	if n == 0 {
+		r.Errorf("R11.14: no helper of the compile pass entering a variable symbol found (compDefineX expected)")
 	}
 }
